@@ -243,6 +243,7 @@ template<class T> std::vector<ML> mlayouts(bool conj_ok) {
 	for(int w = 0; w < ((is_cx<T>{} && conj_ok) ? NWRAP : 1); ++w) { for(int b = 0; b < NBASE; ++b) { r.push_back(ML{b, w}); } }
 	return r;
 }
+static long g_ib = 0;   // --rebase=k: every MATRIX operand view carries non-zero index bases (k, k+1) (1-D reindexed() yields a read-only view on this tree, so vector operands stay zero-based); the logical contents and every expected result are the same
 static bool tripwire(long p, long W, long H) { return p < W || p >= (H - 1) * W; }
 
 // a logical R x C matrix operand in its own store.  Layout variants of the (unwrapped) r x c view (all have the same C++ type):
@@ -267,10 +268,10 @@ template<class T> struct Mat {
 	long off(long i, long j) const { switch(l.base) { case BN: return (2 + i) * W + j; case BP: return (2 + i) * W + 2 + j; case BT: return (2 + j) * W + i; default: return (2 + j) * W + 2 + i; } }
 	template<class F> void base_view(F&& f) {
 		switch(l.base) {
-			case BN: { auto&& v = st({2, 2 + r}, {0, c}); f(v); break; }
-			case BP: { auto&& v = st({2, 2 + r}, {2, 2 + c}); f(v); break; }
-			case BT: { auto&& v = st({2, 2 + c}, {0, r}).transposed(); f(v); break; }
-			default: { auto&& v = st({2, 2 + c}, {2, 2 + r}).transposed(); f(v); break; }
+			case BN: { auto&& v0 = st({2, 2 + r}, {0, c}); if(g_ib == 0) { f(v0); } else { auto&& v = v0.reindexed(g_ib, g_ib + 1); f(v); } break; }
+			case BP: { auto&& v0 = st({2, 2 + r}, {2, 2 + c}); if(g_ib == 0) { f(v0); } else { auto&& v = v0.reindexed(g_ib, g_ib + 1); f(v); } break; }
+			case BT: { auto&& v0 = st({2, 2 + c}, {0, r}).transposed(); if(g_ib == 0) { f(v0); } else { auto&& v = v0.reindexed(g_ib, g_ib + 1); f(v); } break; }
+			default: { auto&& v0 = st({2, 2 + c}, {2, 2 + r}).transposed(); if(g_ib == 0) { f(v0); } else { auto&& v = v0.reindexed(g_ib, g_ib + 1); f(v); } break; }
 		}
 	}
 	// f(view of logical extents R x C)
@@ -293,7 +294,9 @@ template<class T> struct Mat {
 	}
 	template<class V> std::vector<T> read(V& v) const {  // (indexing a const conjugated view does not compile on this tree)
 		std::vector<T> o(static_cast<std::size_t>(R * C));
-		for(long i = 0; i < R; ++i) { for(long j = 0; j < C; ++j) { o[static_cast<std::size_t>(i * C + j)] = static_cast<T>(v[i][j]); } }
+		if(R*C == 0) { return o; }
+		auto const f0 = v.extension().first();
+		for(long i = 0; i < R; ++i) { auto&& row = v[f0 + i]; auto const f1 = row.extension().first(); for(long j = 0; j < C; ++j) { o[static_cast<std::size_t>(i * C + j)] = static_cast<T>(row[f1 + j]); } }
 		return o;
 	}
 	T at(long i, long j) const { return before[static_cast<std::size_t>(i * C + j)]; }
@@ -375,7 +378,9 @@ template<class T> struct Vec {
 	}
 	template<class V> std::vector<T> read(V& v) const {
 		std::vector<T> o(static_cast<std::size_t>(n));
-		for(long i = 0; i < n; ++i) { o[static_cast<std::size_t>(i)] = static_cast<T>(v[i]); }
+		if(n == 0) { return o; }
+		auto const f0 = v.extension().first();
+		for(long i = 0; i < n; ++i) { o[static_cast<std::size_t>(i)] = static_cast<T>(v[f0 + i]); }
 		return o;
 	}
 	T at(long i) const { return before[static_cast<std::size_t>(i)]; }
@@ -458,11 +463,15 @@ static void note_section(std::string const& what, long g0) { g_sections.push_bac
 template<class T, class Arr> void check_new2(Arr& r, long m, long n, std::vector<T> const& expect, Res& res) {
 	if(m == 0 || n == 0) { if(r.num_elements() != 0) { res.flag("wrong-extents", "result should be empty, has " + std::to_string(r.num_elements()) + " elements"); } return; }
 	if(r.size() != m || (~r).size() != n) { res.flag("wrong-extents", "result is " + std::to_string(r.size()) + "x" + std::to_string((~r).size()) + ", expected " + std::to_string(m) + "x" + std::to_string(n)); return; }
-	for(long i = 0; i < m; ++i) { for(long j = 0; j < n; ++j) { T g = static_cast<T>(r[i][j]); T e = expect[static_cast<std::size_t>(i * n + j)]; if(!(g == e)) { res.flag("wrong-result", "result[" + std::to_string(i) + "][" + std::to_string(j) + "] expected " + vstr(e) + " got " + vstr(g)); return; } } }
+	if(m*n == 0) { return; }
+	auto const rf0 = r.extension().first(); auto const rf1 = r[rf0].extension().first();   // position-wise: a new array may adopt the operands' index bases
+	for(long i = 0; i < m; ++i) { for(long j = 0; j < n; ++j) { T g = static_cast<T>(r[rf0 + i][rf1 + j]); T e = expect[static_cast<std::size_t>(i * n + j)]; if(!(g == e)) { res.flag("wrong-result", "result[" + std::to_string(i) + "][" + std::to_string(j) + "] expected " + vstr(e) + " got " + vstr(g)); return; } } }
 }
 template<class T, class Arr> void check_new1(Arr& r, long n, std::vector<T> const& expect, Res& res) {
 	if(r.size() != n) { res.flag("wrong-extents", "result has " + std::to_string(r.size()) + " elements, expected " + std::to_string(n)); return; }
-	for(long i = 0; i < n; ++i) { T g = static_cast<T>(r[i]); T e = expect[static_cast<std::size_t>(i)]; if(!(g == e)) { res.flag("wrong-result", "result[" + std::to_string(i) + "] expected " + vstr(e) + " got " + vstr(g)); return; } }
+	if(n == 0) { return; }
+	auto const rf0 = r.extension().first();
+	for(long i = 0; i < n; ++i) { T g = static_cast<T>(r[rf0 + i]); T e = expect[static_cast<std::size_t>(i)]; if(!(g == e)) { res.flag("wrong-result", "result[" + std::to_string(i) + "] expected " + vstr(e) + " got " + vstr(g)); return; } }
 }
 
 // ================================================================================================ GEMM
@@ -1082,6 +1091,7 @@ int main(int argc, char** argv) {
 	mc::Args args(argc, argv);
 	g_thorough = args.get("tier", "quick") == "thorough";
 	g_sizes_max = args.geti("maxsize", g_thorough ? 3 : 2);
+	g_ib = args.geti("rebase", 0);
 	g_vec_max   = args.geti("maxvec", 9);   // past the unrolling widths (4,5,6,7,8) of reference and optimised level-1 kernels
 	mc::set_deadline(static_cast<double>(args.geti("deadline", 3000)));
 	D.init();
